@@ -294,6 +294,9 @@ func genCase(t *rapid.T) Case {
 		}
 		idx := rapid.IntRange(0, len(es)-1).Draw(t, "entry")
 		env := gen.MutEnv{OtherCert: other.Cert.Raw, OtherIssuer: other.Cert.RawIssuer, AltKey: gen.Keys()[alt], NewContent: gen.SizedBytes(40, 0, 32).Draw(t, "nc")}
+		if signer.Key >= 0 && idx == len(es)-1 {
+			env.SignerKey = signer.Priv() // (the last entry is the signer's; an earlier one may be somebody else's)
+		}
 		m, class := gen.MutateCMS(t, es[idx].Blob, env)
 		if class == "" {
 			m, class = es[idx].Blob, "noop"
